@@ -703,6 +703,9 @@ class InterpreterBase:
             self.build_def_files.add(option_file)
         else:
             self.coredata.options_files[self.subproject] = None
+            # The option file has been deleted: the options it used to
+            # declare are gone, like those removed from a file that remains.
+            self.coredata.optstore.update_project_options({}, self.subproject)
 
     def _resolve_subdir(self, rootdir: str, new_subdir: str) -> T.Tuple[str, bool]:
         subdir = os.path.join(self.subdir, new_subdir)
